@@ -4,7 +4,11 @@ go 1.23
 
 require golang.org/x/tools v0.29.0
 
+require github.com/klauspost/cpuid/v2 v2.0.12 // indirect
+
 require (
+	github.com/fxamacker/circlehash v0.3.0
+	github.com/zeebo/blake3 v0.2.4
 	golang.org/x/mod v0.22.0 // indirect
 	golang.org/x/sync v0.10.0 // indirect
 )
